@@ -1469,9 +1469,13 @@ class ApertureStats:
             warnings.simplefilter('ignore', RuntimeWarning)
             covar_det = np.linalg.det(covar)
 
-            # covariance should be positive semidefinite
-            idx = np.where(covar_det < 0)[0]
+            # covariance should be positive semidefinite (negative
+            # variances can occur for data with negative values; they
+            # must not enter the loop below, which would not terminate)
+            idx = np.where((covar_det < 0) | (covar[:, 0, 0] < 0)
+                           | (covar[:, 1, 1] < 0))[0]
             covar[idx] = np.array([[np.nan, np.nan], [np.nan, np.nan]])
+            covar_det = np.linalg.det(covar)
 
             idx = np.where(covar_det < delta2)[0]
             while idx.size > 0:
